@@ -41,6 +41,7 @@ var tokContextAlphabets = map[string][]rune{
 }
 
 var c04Reused = map[string]tokenizers.ITokenizer{}
+var c04NoopUses = map[string]int{}
 
 func c04Run(c *fw.Ctx, kind string, text string) {
 	// inputs of up to 4 characters get a fresh tokenizer each (and the TokenizeBuffer
@@ -80,6 +81,33 @@ func c04Run(c *fw.Ctx, kind string, text string) {
 	}
 	if res.unreads > 0 {
 		c.Nontrivial()
+	}
+	// look-ahead, then setters that change nothing (the table entries / separator and quote lists the
+	// tokenizer already has), then the fetch: still every character exactly once
+	if len([]rune(text)) <= 6 {
+		// (renewed every 64 uses: each re-registration above U+00FF adds an interval to the table)
+		c04NoopUses[kind]++
+		t := c04Reused[kind+"#noop"]
+		if t == nil || c04NoopUses[kind]%64 == 0 {
+			t = newTokenizer(kind)
+			setOptions(t, 0)
+			c04Reused[kind+"#noop"] = t
+		}
+		r3 := tokenizeWithNoopSetters(t, 0, text, 2)
+		c.Eval(1)
+		if r3.failed() || tokStr(r3.toks) != tokStr(res.toks) {
+			delete(c04Reused, kind+"#noop")
+			t = newTokenizer(kind) // a fresh instance decides
+			setOptions(t, 0)
+			r3 = tokenizeWithNoopSetters(t, 0, text, 2)
+		}
+		if r3.failed() || tokStr(r3.toks) != tokStr(res.toks) {
+			detail := tokShort(r3.toks)
+			if r3.failed() {
+				detail = r3.failStr()
+			}
+			c.Violation("lossy-when-table-is-rewritten-mid-stream:"+kind, "%s tokenizer, input %q: re-registering the current character states between HasNextToken() and NextToken() gives %s, an undisturbed iteration gives %s", kind, text, detail, tokShort(res.toks))
+		}
 	}
 	toks := res.toks
 	var sb strings.Builder
